@@ -6,7 +6,7 @@
    step = one call into the module, a schedule = any list of choices
    (choices that are not enabled do nothing). *)
 From PV Require Import Base.Tac Term4C.Term4CDefs Term4C.Term4CBase Term4C.Term4CMicro Term4C.Term4CInv
-  Term4C.Term4CProofs Term4C.Term4CLive.
+  Term4C.Term4CProofs Term4C.Term4CLive Term4C.Term4CBound.
 Local Open Scope Z_scope.
 
 (* SAFETY, every N >= 1, every schedule: as soon as one process is TERMINATED,
@@ -56,34 +56,44 @@ Theorem C11_tree_wf : forall N,
 Proof. exact tree_wf. Qed.
 Print Assumptions C11_tree_wf.
 
-(* LIVENESS.  Full statement (not proved): from every reachable globally
-   quiescent configuration, every schedule that keeps delivering control
-   messages reaches, within three decisions of the root (at most 6(N-1)
-   deliveries after the pending ones), a configuration where every process is
-   TERMINATED.
-   Proved: (1) global quiescence is stable under every schedule and the
-   message counters no longer move; (2) no deadlock: in a quiescent reachable
-   configuration whose control channels and delayed list are empty, every
-   process is TERMINATED — so a run that drains the channels ends terminated.
-   Missing: the bound on the number of waves (a decreasing measure over the
-   asynchronous waves); the drained runs of the differential check exercise it. *)
+(* LIVENESS, every N >= 1.  [quiescent N c]: every process is idle (IDLE_* or
+   TERMINATED, no task, no pending action) and no application message is in
+   flight or being received.  [deliveries c l]: l is a list of choices each of
+   which hands over a control message that is in the network at that moment.
+   [lbound N c] = 32 N + 15 + 2 |net c| + |dlyq c| (three decisions of the root
+   and the messages already there). *)
+
+(* global quiescence persists under every schedule *)
 Theorem C11_quiescence_stable : forall N c sched, (1 <= N)%nat -> reach N c -> quiescent N c -> quiescent N (run c sched).
 Proof. exact quiescence_stable. Qed.
 Print Assumptions C11_quiescence_stable.
 
+(* no deadlock: quiescent, nothing left to deliver => everybody has terminated *)
 Theorem C11_no_deadlock : forall N c, (1 <= N)%nat -> reach N c ->
   (forall j, (j < N)%nat -> quiet_p (P c j)) -> net c = [] -> dlyq c = [] ->
   forall j, (j < N)%nat -> st (P c j) = TERM.
 Proof. exact no_deadlock. Qed.
 Print Assumptions C11_no_deadlock.
 
-Theorem C11_liveness_partial : forall N c sched, (1 <= N)%nat -> reach N c -> quiescent N c ->
+(* from every reachable quiescent configuration and for EVERY schedule: at most
+   [lbound] choices have any effect, each of them the delivery of a pending
+   control message; quiescence persists; as soon as the control channels are
+   empty every process is TERMINATED.  So every schedule that keeps delivering
+   pending messages (fair delivery) reaches termination everywhere within
+   [lbound] deliveries, i.e. within three waves. *)
+Theorem C11_liveness : forall N c sched, (1 <= N)%nat -> reach N c -> quiescent N c ->
   let c' := run c sched in
   quiescent N c' /\
-  (forall j, sent (P c' j) = sent (P c j) /\ recv (P c' j) = recv (P c j)) /\
-  (net c' = [] -> dlyq c' = [] -> forall j, (j < N)%nat -> st (P c' j) = TERM).
-Proof. exact liveness_partial. Qed.
-Print Assumptions C11_liveness_partial.
+  (net c' = [] -> forall j, (j < N)%nat -> st (P c' j) = TERM) /\
+  exists l, deliveries c l /\ c' = run c l /\ (length l <= lbound N c)%nat.
+Proof. exact liveness_any_schedule. Qed.
+Print Assumptions C11_liveness.
+
+(* the schedule that always delivers the oldest control message terminates everywhere *)
+Theorem C11_liveness_drain : forall N c fuel, (1 <= N)%nat -> reach N c -> quiescent N c -> (lbound N c < fuel)%nat ->
+  forall j, (j < N)%nat -> st (P (drain fuel c) j) = TERM.
+Proof. exact drain_terminates. Qed.
+Print Assumptions C11_liveness_drain.
 
 (* non-vacuity: three processes, a message from 1 to 2 that crosses the first
    wave, a late ready of the root; after everybody has finished and the channels
